@@ -96,6 +96,41 @@ def read_points(body, op, depth=0):
     return out
 
 
+def count_per_path(body, var, stop_bb, full, ones):
+    """The local `var` (several definitions) evaluated along every path to stop_bb: it must be `full`, except on paths that established
+    `T::SIZE == 0`, where it must be one of `ones` (at most one element stands for all elements of a zero-sized type).
+    Returns True iff that holds on every path, the element size is consulted on every path, and there are at least two paths."""
+    per_path, npth = True, 0
+    for pth in body.paths(0, stop=[stop_bb]):
+        if pth[-1] != stop_bb:
+            continue
+        npth += 1
+        zst, val = None, None
+        for ev in events(body, pth):
+            if ev.kind == "branch":
+                c = ev.a
+                if c[0] == "bin":
+                    bt = bool_taken(ev)
+                    n_ = norm_cmp(c, bt) if bt is not None else None
+                    if n_ and n_[0] in ("Eq", "Ne") and {canon(n_[1]), canon(n_[2])} == {"0", "<T as FlatSized>::SIZE"}:
+                        zst = n_[0] == "Eq"
+                elif canon(c) == "<T as FlatSized>::SIZE":
+                    zst = (ev.b == 0) if isinstance(ev.b, int) else (False if ev.b and ev.b[0] == "not" and 0 in ev.b[1] else zst)
+            elif ev.kind == "assign" and not ev.a["p"] and body.local_name(ev.a["v"]) == var:
+                val = ab(canon(body.expr_of_rvalue(ev.b)))
+            elif ev.kind == "call":
+                dl = ev.a.get("dest")
+                if dl and not dl["p"] and body.local_name(dl["v"]) == var:
+                    val = ab(canon(ev.b))
+        if zst is True:
+            per_path = per_path and val in ones
+        else:
+            per_path = per_path and val == full
+        if zst is None:
+            per_path = False   # the element size is not consulted on this path
+    return per_path and npth >= 2
+
+
 def closures_of(F, b):
     return [bj for bj in F.bodies if bj["id"].startswith(b["id"] + "::{closure")]
 
@@ -140,35 +175,7 @@ def vec_string_validators(F, R):
                 # It must be len, except for a zero-sized element type (unbounded capacity): there one element stands for all.
                 var = m_.group(1)
                 mins = {"core::cmp::Ord::min(%s, 1)" % lenf, "core::cmp::Ord::min(1, %s)" % lenf, "core::cmp::min(%s, 1)" % lenf, "core::cmp::min(1, %s)" % lenf}
-                per_path, npth = True, 0
-                for pth in body.paths(0, stop=[gu[0][0]]):
-                    if pth[-1] != gu[0][0]:
-                        continue
-                    npth += 1
-                    zst, val = None, None
-                    for ev in events(body, pth):
-                        if ev.kind == "branch":
-                            c = ev.a
-                            if c[0] == "bin":
-                                bt = bool_taken(ev)
-                                n_ = norm_cmp(c, bt) if bt is not None else None
-                                if n_ and n_[0] in ("Eq", "Ne") and {canon(n_[1]), canon(n_[2])} == {"0", "<T as FlatSized>::SIZE"}:
-                                    zst = n_[0] == "Eq"
-                            elif canon(c) == "<T as FlatSized>::SIZE":
-                                zst = (ev.b == 0) if isinstance(ev.b, int) else (False if ev.b and ev.b[0] == "not" and 0 in ev.b[1] else zst)
-                        elif ev.kind == "assign" and not ev.a["p"] and body.local_name(ev.a["v"]) == var:
-                            val = ab(canon(body.expr_of_rvalue(ev.b)))
-                        elif ev.kind == "call":
-                            dl = ev.a.get("dest")
-                            if dl and not dl["p"] and body.local_name(dl["v"]) == var:
-                                val = ab(canon(ev.b))
-                    if zst is True:
-                        per_path = per_path and val in mins
-                    else:
-                        per_path = per_path and val == lenf
-                    if zst is None:
-                        per_path = False   # the element size is not consulted on this path
-                zst_ok = per_path and npth >= 2
+                zst_ok = count_per_path(body, var, gu[0][0], lenf, mins)
                 if zst_ok:
                     want = got
             okr = okr and got == want
@@ -240,8 +247,22 @@ def array_validator(F, R):
     if ok:
         e = canon(body.expr_of_call(vc[0][1], 0, vc[0][0]))
         ok = re.match(r"^FlatValidate::validate_unchecked\(core::slice::<impl \[T\]>::get_unchecked\(core::slice::<impl \[T\]>::get_unchecked\(\$bytes, RangeFrom\{Mul\((.*), <T as FlatSized>::SIZE\)\}\), RangeTo\{<T as FlatSized>::SIZE\}\)\)$", e) is not None \
-            and "Range{0, k(N)}" in e
-    R.ob("V1.array-elements", fn, "elements", ok, "%s: element i (0 <= i < N) is validated on bytes[i*SIZE..][..SIZE]" % fn, where=b["span"])
+            and ("Range{0, k(N)}" in e or re.search(r"Range\{0, %(\w+)\}", e) is not None)
+    zst_ok = False
+    m_ = re.search(r"Range\{0, %(\w+)\}", e) if ok else None
+    if m_:
+        # the bound is a local: N, except one representative for a zero-sized element type
+        ii = find_calls(body, "IntoIterator::into_iter")
+        zeros_or_one = {"1", "0"}   # `if N > 0 { 1 } else { 0 }`, `min(N, 1)` ...
+        ones = {"core::cmp::Ord::min(k(N), 1)", "core::cmp::Ord::min(1, k(N))", "core::cmp::min(k(N), 1)", "core::cmp::min(1, k(N))"} | zeros_or_one
+        zst_ok = len(ii) == 1 and count_per_path(body, m_.group(1), ii[0][0], "k(N)", ones)
+        ok = ok and zst_ok
+    R.ob("V1.array-elements", fn, "elements", ok,
+         "%s: element i (0 <= i < N) is validated on bytes[i*SIZE..][..SIZE] (one representative when the element type is zero-sized)" % fn, where=b["span"])
+    if R.pid in ("C01", "C10"):
+        R.ob("V1.zst-bounded", fn, "loop-bound", zst_ok,
+             "%s: the number of element checks is bounded by the input: N * SIZE <= bytes for SIZE > 0, at most one check when SIZE == 0 "
+             "([(); 1 << 40] is a legal 0-byte type)" % fn, where=b["span"])
     offs = [r for c in closures_of(F, b) for r in the_return(Body(c))]
     want = "flatty_base::error::Error::offset($e, Mul($1.0, <T as FlatSized>::SIZE))"
     R.ob("E1.err-offset", fn, "element", offs == [want], "%s: an element's error is shifted by i * SIZE%s" % (fn, "" if offs == [want] else " -- found %s" % offs),
@@ -607,6 +628,17 @@ def flex_writers(F, R):
     ss = slot_stores(body)
     vals = sorted(v for _, _, v, _ in ss)
     want_v = sorted(["ZERO", "MAX", "(core::option::Option::<T>::take(%prev) as Some).0.1"])
+    if "(%prev_sealed as Some).0" in vals:
+        # lazily sealed form: prev_sealed is None or the checked conversion of the previous item's extent (see F4.extent / P8)
+        st_ps = set()
+        for bb_, i_, s_ in body.assigns():
+            if not s_["l"]["p"] and body.local_name(s_["l"]["v"]) == "prev_sealed":
+                st_ps.add(ab(canon(body.expr_of_rvalue(s_["r"]))))
+        good = len(st_ps) == 2 and "None{}" in st_ps and any(
+            x.startswith("Some{(Try(core::option::Option::<T>::ok_or(core::option::Option::<T>::and_then(num_traits::cast::FromPrimitive::from_usize((%prev as Some).0.1), closure{})")
+            and x.endswith(" as Continue).0}") for x in st_ps)
+        if good:
+            want_v = sorted(["ZERO", "MAX", "(%prev_sealed as Some).0"])
     R.ob("P6.fromiter-slot-values", fn, "stores", vals == want_v,
          "%s: slot stores are the initial zero terminator, L::MAX for the newest item and the sealed extent of its predecessor%s" % (fn, "" if vals == want_v else " -- found %s" % vals),
          where=b["span"])
@@ -706,6 +738,28 @@ def seal_formula(F, R, b, body, fn):
     if ok:
         e = ab(canon(body.expr_of_call(fu[0][1], 0, fu[0][0])))
         ok = re.match(r"^num_traits::cast::FromPrimitive::from_usize\(Add\(OFFSET_SIZE, utils::ceil_mul\(FlatBase::size\(.*\), ALIGN\)\)\)$", e) is not None
+        if not ok and e == "num_traits::cast::FromPrimitive::from_usize((%prev as Some).0.1)":
+            # lazily sealed: the extent of the previous item was stored as a usize next to its slot and is converted when a successor arrives
+            st_prev = set()
+            for bb_, i_, s_ in body.assigns():
+                if not s_["l"]["p"] and body.local_name(s_["l"]["v"]) == "prev":
+                    st_prev.add(ab(canon(body.expr_of_rvalue(s_["r"]))))
+            somes = [x for x in st_prev if x.startswith("Some{")]
+            ok = len(somes) == 1 and st_prev - set(somes) <= {"None{}"} and \
+                re.match(r"^Some\{tuple\{.*, Add\(OFFSET_SIZE, utils::ceil_mul\(FlatBase::size\(.*\), ALIGN\)\)(, %pos)?\}\}$", somes[0]) is not None
+    if fn.startswith("flex::FromIterator"):
+        # the last item stays open (marked L::MAX) and needs no stored extent: only an item that gets a successor is converted to L, so a
+        # single / last item whose extent does not fit L is accepted exactly as `push` accepts it (C03 / C15: content that fits is not refused)
+        lazy = False
+        if len(fu) == 1 and ab(canon(body.expr_of_call(fu[0][1], 0, fu[0][0]))) == "num_traits::cast::FromPrimitive::from_usize((%prev as Some).0.1)":
+            for sb2, st2 in body.switches():
+                if ab(canon(body.expr_of_operand(st2["switch"]))) == "discr(%prev)":
+                    some_t = [tb for v, tb in st2["targets"] if int(v) == 1]
+                    if some_t and body.edge_dominates((sb2, some_t[0]), fu[0][0]):
+                        lazy = True
+        R.ob("P8.last-item-open", fn, "lazy-seal", lazy,
+             "%s: an item's extent is converted to the offset type only when a successor arrives (under `prev is Some`); the last item is never "
+             "refused because its extent does not fit L" % fn, where=b["span"])
     R.ob("F4.extent", fn, "sealed-extent", ok,
          "%s: a sealed item's stored extent is OFFSET_SIZE + ceil_mul(item.size(), ALIGN of the vector)" % fn, where=b["span"])
     cl = [c for c in closures_of(F, b) if any("PartialOrd" in str(t) for _, t in Body(c).calls())]
